@@ -426,6 +426,14 @@ S(id="RG.rule", props=["C10", "C12"], spec="rgrule.spec.c", harness="h_rg_rule",
   assumes=["A7: symb_find_by_repr answers NULL or a symbol of the table (arbitrary which); negative codes are never in the table (RG.prefix adds only codes >= 0)",
            "R7: the loop body is cut from yaep_read_grammar on every run; the loop header and the four statements before it (error symbol) are not covered by this set",
            "rule_new_start as proved by T.copy.rule, rule_new_symb_add / rule_new_stop by T.rule.add / T.rule.stop (restated without the storage)"])
+S(id="RG.rules", props=["C10", "C14"], spec="rgloop.spec.c", harness="h_rg_rules", mode="U", loops=True, n_loops=1, canaries=2, enforce=["verif_rg_rules/rg_rules_c"],
+  replace=["verif_error_exit/err_loop_c", "symb_find_by_repr/find_repr3_c", "symb_find_by_code/find_code3_c", "symb_add_term/add_term3_c", "verif_rg_rule/rg_rule_use_c"],
+  functions=["yaep_read_grammar (middle region, rule R8: error symbol and rule-intake loop around the R7 body)"],
+  what="`error' is looked up before it is added (FIXED_NAME_USAGE exactly when the name is taken) and gets the reserved code; $S and $eof start out absent; the callback runs on "
+       "an object still marked undefined; each delivered rule reaches the body exactly as delivered; on normal end $S / $eof exist iff at least one rule was delivered and then "
+       "the start symbol is known (what the NO_RULES test of RG.tail relies on)",
+  assumes=["A7': negative codes are never in the table here", "R8: region cut on every run, loop body replaced by a call of the R7 function (proved by RG.rule, used here through a reduced contract)",
+           "termination of the loop is the callback's business (no variant)"])
 S(id="T.rule.add", props=["C12", "C10"], spec="symtab.spec.c", harness="h_rule_add", mode="L", canaries=2, enforce=["rule_new_symb_add/rule_add_c"],
   replace=["_OS_expand_memory/os_expand_keep_c"], functions=["rule_new_symb_add"], params={"quick": {"CAP": 8, "RCAP": 3}, "thorough": {"CAP": 8, "RCAP": 3}}, mem=32, timeout=1500, tier="thorough",
   bound="the open array holds <= 3 symbols before the call; the function has no loop (thorough tier only: 5 minutes)",
